@@ -259,3 +259,29 @@ def die_operation_sequences(S, seq, nr, nc):
             new = d.floorplanning_rectangles()[0]
             _post_split(S, "sequence.split", current, lim, n, new)
             current = list(new)
+
+
+@contract(P, functions=[D + "initial_grid"], note="rows and columns symbolic: rectangle_grid replaced by its C18 contract (rectangle_grid_any_size)")
+def die_initial_grid_any_size(S):
+    """initial_grid(nrows, ncols) for SYMBOLIC counts, modular: the die hands its own bounding box to rectangle_grid with the
+    same counts and reports exactly the list it returns as its refinable regions; what that list is, for any counts, is the
+    contract of rectangle_grid proved in C18 (cells of the index pairs tile the rectangle, attributes inherited)."""
+    W, H = S.real("W", pos=True), S.real("H", pos=True)
+    g = Rectangle(center=Point(W / 2, H / 2), shape=Shape(W, H))
+    d = bare_die(S, W, H, [], [g], [], [])
+    nr, nc = S.int("nrows"), S.int("ncols")
+    calls = []
+    token = [mk_rect(S, "t")]
+
+    def grid_stub(self, nrows, ncols):
+        calls.append((self, nrows, ncols))
+        return token
+    S.patch(Rectangle, "rectangle_grid", grid_stub)
+    out = S.call(d.initial_grid, nr, nc)
+    S.ensure("initial_grid_any.rejects_exactly_nonpositive_counts", siff(out.raised(AssertionError), sor(nr <= 0, nc <= 0)))
+    if not out.ok:
+        return
+    S.ensure("initial_grid_any.grids_the_die_bounding_box_with_the_requested_counts",
+             len(calls) == 1 and calls[0][0] is d.bounding_box and sand(seq(calls[0][1], nr), seq(calls[0][2], nc)))
+    S.ensure("initial_grid_any.refinable_regions_are_the_grid", d.floorplanning_rectangles()[0] == token and d.floorplanning_rectangles()[1] == [] and
+             len(d.blockages) == 0)
